@@ -339,6 +339,14 @@ pub fn run(item: &Value) -> Value {
         "classify_json" => crate::api_gen::classify_json(ty, &item["json"]).unwrap_or(json!({"error": "unknown message type"})),
         "validate_json" => crate::api_gen::validate_json(ty, &item["json"]).unwrap_or(json!({"error": "unknown message type"})),
         "full" => crate::api_gen::full(ty, item["text"].as_str().unwrap_or("")).unwrap_or(json!({"error": "unknown message type"})),
+        "extract_block" => {
+            let text = item["text"].as_str().unwrap_or("");
+            let k = item["block"].as_u64().unwrap_or(0) as u8;
+            match SwiftParser::extract_block(text, k) {
+                Ok(b) => json!({"ok": true, "block": b}),
+                Err(e) => json!({"ok": false, "display": e.to_string()}),
+            }
+        }
         "plugin_validate" | "plugin_parse" | "plugin_publish" => crate::plugin::run_plugin(op, item),
         "auto" => {
             // auto-detecting parse + the wrapper's validate(), for comparison with the typed API and the plugins
